@@ -806,6 +806,9 @@ class Deco:
         if t == "cont":
             return "continue; "
         if t == "ret":
+            if getattr(self, "caps", None) and self.rng.random() < 0.4:
+                # the value returned is the result of a call of a closure over a function-level local
+                return "return %s() * 0 + %d; " % (self.caps[2], s[1])
             return "return; " if getattr(self, "bare_ret", False) else "return %d; " % s[1]
         if t == "call":
             return "print(%s); " % (getattr(self, "callexpr", {}).get(s[1]) or "f%d()" % s[1])
@@ -825,11 +828,25 @@ class Deco:
                 r += "catch %s { " % e + esc + body[2:]
             if hf:
                 # without catch clause the finally block is entered one slot higher by exception: no declarations there
-                r += "finally " + self.block(s[3], d + 1, ev, iv, scope, decl_ok and hc)
+                fb = self.block(s[3], d + 1, ev, iv, scope, decl_ok and hc)
+                r += "finally { " + self.cap_touch() + fb[2:]
             if top:
                 r += self.dump(scope)
             return r
         raise ValueError(s)
+
+    def cap_touch(self):
+        """in a finally block: every captured function-level local is read / written BOTH directly and through the getter /
+        setter closures created before the try statement (on every way the block is entered)"""
+        caps = getattr(self, "caps", None)
+        if not caps or self.rng.random() < 0.25:
+            return ""
+        a, get, set_ = caps
+        return self.rng.choice([
+            "print(%s()); print(%s); %s = %s + 10; print(%s()); " % (set_, a, a, a, get),
+            "%s = %s + 100; print(%s()); print(%s()); print(%s); " % (a, a, get, set_, a),
+            "print(%s()); print(%s); " % (get, a),
+        ])
 
     def dump(self, scope):
         self.n += 1
@@ -840,7 +857,12 @@ class Deco:
     def function(self, k, body):
         scope = ["a%d" % k, "b%d" % k]
         txt = "fn f%d() { var a%d = %d; var b%d = %d; " % (k, k, 100 + k, k, 200 + k)
+        if not getattr(self, "plain", False):
+            # getter / setter closures over a FUNCTION-level local, created before any try statement, escaping
+            txt += "var get%d = || a%d; var set%d = || { a%d = a%d + 1; return a%d; }; out.push(get%d); out.push(set%d); " % ((k,) * 8)
+            self.caps = ("a%d" % k, "get%d" % k, "set%d" % k)
         txt += self.stmt(body, 0, "e", "i", scope, True, True)
+        self.caps = None
         return txt + self.dump(scope) + "} "
 
 
@@ -1007,6 +1029,96 @@ def run_pending(ctx, stats):
     stats["pending_return_heap_programs"] = len(PENDING)
 
 
+# ------------------------------------------------------------------------------------------------
+# EVERY runtime raise site (the trigger table of the C17 check: one or more statements per `error!` site of vm.rs /
+# core.rs / object.rs / value.rs, incl. the two limits of call_closure: arity and the 64-frame "Stack overflow.") must
+# deliver its exception to the innermost active handler of the raising fiber, finally blocks on the way run:
+#   (a) directly in try/catch, (b) 1-3 calls below the handler, (c) inside try/finally below try/finally below a catch,
+#   (d) inside a fiber whose body has the handler.  Expectations by construction (class name + message of the site).
+def rt_triggers():
+    try:
+        from props import C17
+        return list(C17.RT_TRIGGERS)
+    except Exception:  # noqa
+        return []
+
+
+def raise_site_cases(quick):
+    cases = []
+    for key, trigs in rt_triggers():
+        kind, lit = key
+        for trig in (trigs[:1] if quick else trigs):
+            prep, stmt, msg, opts = trig
+            msg = msg if msg is not None else lit
+            want_e = ["<class %s>" % kind, msg]
+            handler = 'catch e { print(type(e)); print(e.context); } '
+            inner = opts.get("inner")
+            mods = opts.get("mods")
+            if mods:
+                src = " ".join(prep) + " try { %s } %sprint(\"after\");" % (stmt, handler)
+                cases.append((key, "a/top", src, want_e + ["after"], mods))
+                continue
+            if inner:
+                # the failing statement sits inside a function/fiber defined by the preparation: handler around it there
+                pre_in = " ".join(("try { %s } %s" % (inner[0], handler)) if l == "@INNER" else l for l in prep)
+                cases.append((key, "a/inner", pre_in + " " + stmt + ' print("after");', want_e + ["after"], None))
+                if "Stack overflow" in lit:
+                    pre_out = " ".join(inner[0] if l == "@INNER" else l for l in prep)
+                    cases.append((key, "b/63 frames below", pre_out + " fn t() { try { %s } %sprint(\"after\"); } t();" % (stmt, handler),
+                                  want_e + ["after"], None))
+                    cases.append((key, "c/63 frames below, finally on the way",
+                                  pre_out + ' fn u() { try { %s } finally { print("fin0"); } print("no"); } fn t() { try { try { u(); } '
+                                  'finally { print("fin1"); } } %sprint("after"); } t();' % (stmt, handler),
+                                  ["fin0", "fin1"] + want_e + ["after"], None))
+                continue
+            pre = " ".join(prep) + " "
+            cases.append((key, "a", pre + "fn t() { try { %s } %sprint(\"after\"); } t();" % (stmt, handler), want_e + ["after"], None))
+            for depth in ((2,) if quick else (1, 2, 3)):
+                chain = "fn r0() { %s print(\"no\"); } " % stmt
+                for d in range(1, depth):
+                    chain += "fn r%d() { r%d(); print(\"no\"); } " % (d, d - 1)
+                cases.append((key, "b/%d" % depth, pre + chain + "fn t() { try { r%d(); } %sprint(\"after\"); } t();" % (depth - 1, handler),
+                              want_e + ["after"], None))
+            cases.append((key, "c", pre + 'fn r0() { try { %s } finally { print("fin0"); } print("no"); } fn t() { try { try { r0(); } '
+                          'finally { print("fin1"); } print("no"); } %sprint("after"); } t();' % (stmt, handler),
+                          ["fin0", "fin1"] + want_e + ["after"], None))
+            if "module-level" not in lit:
+                cases.append((key, "d", pre + "var fbx = Fiber.new(|| { try { %s } %sreturn 5; }); print(fbx.call()); print(\"after\");"
+                              % (stmt, handler), want_e + ["5", "after"], None))
+    return cases
+
+
+def raise_sites_family(ctx, stats):
+    cases = raise_site_cases(ctx.quick())
+    if not cases:
+        ctx.notes.append("the trigger table of the C17 plug-in (RT_TRIGGERS) is not available: raise-site family skipped")
+        return
+
+    def line(src, mods):
+        if mods:
+            return "mods - " + hx(src) + "".join(" %s=%s" % (hx(k), hx(v)) for k, v in sorted(mods.items()))
+        return "run - " + hx(src)
+    lines = [line(c[2], c[4]) for c in cases]
+    sites = set()
+    bad = []
+    for prof in ("release", "debug"):
+        recs = yvlib.run_harness(ctx.harness(prof), lines, case_timeout_ms=30000)
+        for (key, cxname, src, want, mods), rec in zip(cases, recs):
+            got = rec.output
+            ok = rec.result[0] == "ok" and got == want
+            sites.add(key)
+            if not ok:
+                bad.append({"src": src, "spec": ",".join(want) + "/D", "impl": impl_result(rec) + " (%s build; site %s: %s, context %s)"
+                            % (prof, key[0], key[1], cxname), "m": None, "wire": "", "prog": None, "mods": mods})
+        if bad:
+            break
+    stats["raise_site_cases"] = len(cases)
+    stats["raise_sites_covered"] = len(sites)
+    stats["raise_site_mismatch"] = len(bad)
+    bad.sort(key=lambda b: len(b["src"]))
+    stats["violations"].extend(bad[:3])
+
+
 def decorate(prog, seed):
     dc = Deco(seed)
     src = "var out = []; " + "".join(dc.function(k, b) for k, b in enumerate(prog))
@@ -1151,6 +1263,16 @@ DIRECTED = [
     'out.push(|| y); out.push(|| e); } } f(); print(out[0]()); print(out[1]()); print(out[2]());',
     'var out = []; fn f() { try { var x = 1; fn g() { var y = 2; out.push(|| x + y); throw x + y; } g(); } catch e { print(e); } } '
     'f(); print(out[0]());',
+    # a function-level local captured before the try, touched directly and through the closure in the finally block, on
+    # every way into it: fall-through, return, return of the closure call's result, exception
+    'var out = []; fn work(n) { var released = 0; var release = || { released = released + 1; return released; }; out.push(release); '
+    'try { if n == 1 { return 7; } if n == 2 { return release(); } if n == 3 { throw n; } print("body"); } catch e { print(e); } '
+    'finally { print(release()); print(released); released = released + 10; print(release()); print(released); } return released; } '
+    'print(work(0)); print(work(1)); print(work(2)); print(work(3)); print(out[0]()); print(out[3]());',
+    'fn counter() { var c = 0; var inc = || { c = c + 1; return c; }; var get = || c; try { inc(); return get; } '
+    'finally { inc(); c = c + 1; print(c); print(get()); } } var g = counter(); print(g());',
+    'var keep = nil; fn f(v) { var log = []; keep = || log; try { log.push(1); return log.len(); } finally { log.push(2); '
+    'log = [9]; print(keep()); print(log); } } print(f(0)); print(keep());',
 ]
 
 
@@ -1485,6 +1607,7 @@ def run(ctx):
     run_directed(ctx, stats)
     run_big(ctx, stats)
     run_pending(ctx, stats)
+    raise_sites_family(ctx, stats)
     progs = systematic()
     nsys = len(progs)
     n_safe, n_wild = (330, 150) if quick else (7000, 3000)
